@@ -3,6 +3,7 @@
 //! convx <V> <base> <module> <unit> <coef> <consA> <consS> <p1:..:p7> <v> <new(v).value> <Q{v}.get()> <new(v).get()>
 //! cplx  <V> <base> <module> <unit> <coef> <consA> <consS> <p1:..:p7> <re> <im> <norm> <new.re> <new.im> <get.re> <get.im> <rt.re> <rt.im>
 //! skip  <V> <base> <module> <unit>          the unit's coefficient is not representable in the storage type (panics)
+//! xpow  <V> <coef> <e> <coef.powi(e)>       one factor of the base-unit combination (`n/d` for exact types, hex for complex)
 #![allow(non_camel_case_types, unused_macros, unused_imports, dead_code)]
 use std::io::Write;
 use std::marker::PhantomData;
@@ -65,6 +66,17 @@ macro_rules! convx_q {
         fn q(v: $V) -> QT {
             QT { dimension: PhantomData, units: PhantomData, value: v }
         }
+        // the factors of the base-unit combination: coefficient, exponent, `powi` result
+        if $cx.take() {
+            if let Some(s) = g(|| {
+                let cs = base_coefs::<$U<$V>, $V>();
+                let ps = base_pows::<D, $U<$V>, $V>();
+                let ds = dim_exps::<D>();
+                (0..7).map(|i| format!("xpow {} {} {} {}\n", <$V as Val>::NAME, cs[i].enc(), ds[i], ps[i].enc())).collect::<String>()
+            }) {
+                write!($cx.out, "{}", s).unwrap();
+            }
+        }
         $(if $cx.take() {
             type N = uom::si::$module::$unit;
             let hd = g(|| {
@@ -99,6 +111,14 @@ macro_rules! cplx_q {
         type QT = uom::si::$module::$Q<$U<$V>, $V>;
         fn q(v: $V) -> QT {
             QT { dimension: PhantomData, units: PhantomData, value: v }
+        }
+        if $cx.take() {
+            let cs = base_coefs::<$U<$V>, $V>();
+            let ps = base_pows::<D, $U<$V>, $V>();
+            let ds = dim_exps::<D>();
+            for i in 0..7 {
+                writeln!($cx.out, "xpow {} {} {} {}", $vname, cs[i].hex(), ds[i], ps[i].hex()).unwrap();
+            }
         }
         $(if $cx.take() {
             type N = uom::si::$module::$unit;
